@@ -128,7 +128,8 @@ class Part(object):
 
 
 _DEVNULL_HANDLER = []
-_CVSS_MODULES = r"cvss(\..*)?$"
+_THIRD_PARTY = r"(jsonschema|jsonschema_specifications|referencing|attr|attrs|rpds|icontract|asttokens|numpy|atheris|typing_extensions|six)(\..*)?$"
+_OUR_FILTERS = []
 
 
 def _set_ambient(profile):
@@ -151,9 +152,11 @@ def _set_ambient(profile):
     import warnings
     # (what `-W error::Warning:cvss...` / pytest's filterwarnings=error do; restricted to warnings attributed to the
     # library's modules so that the harness's own dependencies are not affected)
-    warnings.filters[:] = [f for f in warnings.filters if not (f[0] == "error" and getattr(f[3], "pattern", "") == _CVSS_MODULES)]
-    if profile == "warnings-as-errors":
-        warnings.filterwarnings("error", module=_CVSS_MODULES)
+    # every warning raised WHILE A LIBRARY CALL IS RUNNING is an error, whoever it is attributed to (a library warning
+    # issued with stacklevel=2 is attributed to the caller, i.e. to this harness): the filter is scoped to obs.call(),
+    # the wrapper through which the monitors call the library, so that the harness's own dependencies are not affected
+    from . import obs as _obs
+    _obs.WARNINGS_AS_ERRORS = profile == "warnings-as-errors"
     if hasattr(warnings, "_filters_mutated"):
         warnings._filters_mutated()
 
